@@ -649,7 +649,7 @@ func (r *renderer) computed(g gcfg, v *model.V) (src, path string) {
 func (g gcfg) freshNonMember(t *rapid.T, v *model.V) *model.V {
 	for i := 0; i < 8; i++ {
 		x := g.nearMiss(t, v)
-		if !v.Has(x) && (g.superimposed || !model.With(v, x).HasSuperimposed()) {
+		if !v.Has(x) && (g.superimposed || !hasSuperimposedDeep(model.With(v, x))) {
 			return x
 		}
 	}
